@@ -7,6 +7,7 @@ import (
 	"go/ast"
 	"go/token"
 	"go/types"
+	"golang.org/x/tools/go/packages"
 	"sort"
 	"strings"
 
@@ -573,4 +574,114 @@ func accessIsWrite(root ast.Node, e ast.Expr) bool {
 		return true
 	})
 	return w
+}
+
+// lockWrapperHeld: call invokes a function or method of the package that takes a func() argument and calls it with a
+// mutex held (Lock; defer Unlock; f()). Returns the locks held at that invocation (nil if the callee is not such a
+// wrapper).
+func lockWrapperHeld(p *packages.Package, call *ast.CallExpr) map[string]bool {
+	info := p.TypesInfo
+	fn := calleeOf(info, call)
+	if fn == nil || fn.Pkg() != p.Types {
+		return nil
+	}
+	for _, fd := range allFuncDecls(p) {
+		if info.Defs[fd.Name] != types.Object(fn) || fd.Body == nil {
+			continue
+		}
+		fparams := map[types.Object]bool{}
+		for _, prm := range fd.Type.Params.List {
+			if _, isFn := info.TypeOf(prm.Type).Underlying().(*types.Signature); isFn {
+				for _, nm := range prm.Names {
+					fparams[info.Defs[nm]] = true
+				}
+			}
+		}
+		if len(fparams) == 0 {
+			return nil
+		}
+		fc := newFnCFG(fd.Body, info)
+		var held map[string]bool
+		ast.Inspect(fd.Body, func(n ast.Node) bool {
+			if _, isLit := n.(*ast.FuncLit); isLit {
+				return false
+			}
+			if c2, ok := n.(*ast.CallExpr); ok {
+				if id, ok := ast.Unparen(c2.Fun).(*ast.Ident); ok && fparams[info.ObjectOf(id)] {
+					h := fc.heldAt(c2)
+					if held == nil {
+						held = h
+					} else {
+						for k := range held {
+							if !h[k] {
+								delete(held, k)
+							}
+						}
+					}
+				}
+			}
+			return true
+		})
+		if len(held) == 0 {
+			return nil
+		}
+		return held
+	}
+	return nil
+}
+
+// heldAtDeep: the locks held at node n of fd, where n may sit inside function literals: the locks of the innermost
+// literal's own body, plus — for each enclosing literal that is passed to a lock wrapper (x.locked(func() { … })) — the
+// wrapper's locks and the locks held where the wrapper is called.
+func heldAtDeep(p *packages.Package, fd *ast.FuncDecl, n ast.Node) map[string]bool {
+	info := p.TypesInfo
+	// chain of enclosing function literals, outermost first
+	var lits []*ast.FuncLit
+	ast.Inspect(fd.Body, func(x ast.Node) bool {
+		if fl, ok := x.(*ast.FuncLit); ok && fl.Body.Pos() <= n.Pos() && n.End() <= fl.Body.End() {
+			lits = append(lits, fl)
+		}
+		return true
+	})
+	out := map[string]bool{}
+	body := fd.Body
+	if len(lits) > 0 {
+		body = lits[len(lits)-1].Body
+	}
+	for k := range newFnCFG(body, info).heldAt(n) {
+		out[k] = true
+	}
+	for i := len(lits) - 1; i >= 0; i-- {
+		fl := lits[i]
+		// the call this literal is an argument of
+		var wrapper *ast.CallExpr
+		ast.Inspect(fd.Body, func(x ast.Node) bool {
+			if call, ok := x.(*ast.CallExpr); ok {
+				for _, a := range call.Args {
+					if ast.Unparen(a) == ast.Expr(fl) {
+						wrapper = call
+					}
+				}
+			}
+			return true
+		})
+		if wrapper == nil {
+			break
+		}
+		wh := lockWrapperHeld(p, wrapper)
+		if wh == nil {
+			break // the literal may run later / elsewhere: nothing of the outside carries over
+		}
+		for k := range wh {
+			out[k] = true
+		}
+		outerBody := fd.Body
+		if i > 0 {
+			outerBody = lits[i-1].Body
+		}
+		for k := range newFnCFG(outerBody, info).heldAt(wrapper) {
+			out[k] = true
+		}
+	}
+	return out
 }
